@@ -23,6 +23,7 @@ package main
 import (
 	"bufio"
 	"bytes"
+	"errors"
 	stdjson "encoding/json"
 	"fmt"
 	"math/rand/v2"
@@ -134,6 +135,8 @@ func c18Shuffles(calls []pool.Call, base []string, rng *rand.Rand, n, heavyOneIn
 	}
 	return out
 }
+
+func errorsIs(err, target error) bool { return errors.Is(err, target) }
 
 func c18Self() string {
 	p, err := os.Executable()
@@ -340,6 +343,11 @@ func runC18(c *Ctx) {
 	}
 	defer os.Remove(baseFile)
 
+	if os.Getenv("C18_ONLY") == "walk" { // development aid: one phase only
+		c.c18Walk()
+		c.c18Intern()
+		return
+	}
 	// (d) start the race build early; it runs while the sequential checks proceed
 	raceDone := make(chan struct{})
 	go func() { defer close(raceDone); c.c18Race(baseFile) }()
@@ -450,6 +458,9 @@ func runC18(c *Ctx) {
 	// Tie B: intern cache and hash against the Lean model
 	c.c18Intern()
 	phase("intern")
+	// Tie B: the marshal walk with the cycle tracker against the Lean model
+	c.c18Walk()
+	phase("walk")
 
 	<-raceDone
 	phase("wait-for-race")
@@ -763,6 +774,140 @@ func (c *Ctx) c18Intern() {
 		}
 	}
 	c.HitN("hash64-pairs", int64(len(pairs)))
+}
+
+// ---- Tie B for Model/Reset.lean `marshal`: random value graphs below 1001 wrappers ---------------------
+
+// c18Graph is a generated value: the Go value and its script in the oracle's prefix notation.
+type c18Graph struct {
+	rng    *rand.Rand
+	nextID int
+	script []string
+}
+
+// gen builds one value.  anc: the open containers (id -> slice) on the path from the root;
+// done: completed containers that may be shared by a later sibling.
+func (g *c18Graph) gen(depth int, anc []int, ancVal map[int][]any, done *[]struct {
+	v      []any
+	script []string
+}) any {
+	r := g.rng.IntN(20)
+	switch {
+	case depth >= 4 || r < 6:
+		switch g.rng.IntN(8) {
+		case 0:
+			g.script = append(g.script, "L1")
+			return make(chan int) // unsupported type: error exit
+		case 1:
+			g.script = append(g.script, "L2")
+			return pool.ByMethod{M: pool.MPanic} // user panic exit
+		}
+		g.script = append(g.script, "L0")
+		return 1
+	case r < 9 && len(anc) > 0: // back edge: a real cycle in the Go value
+		p := anc[g.rng.IntN(len(anc))]
+		g.script = append(g.script, "N", strconv.Itoa(p), "0")
+		return ancVal[p]
+	case r < 11 && len(*done) > 0: // share a completed container (a DAG, not a cycle)
+		d := (*done)[g.rng.IntN(len(*done))]
+		g.script = append(g.script, d.script...)
+		return d.v
+	}
+	g.nextID++
+	id := g.nextID
+	k := 1 + g.rng.IntN(3)
+	s := make([]any, k)
+	start := len(g.script)
+	g.script = append(g.script, "N", strconv.Itoa(id), strconv.Itoa(k))
+	ancVal[id] = s
+	for i := 0; i < k; i++ {
+		s[i] = g.gen(depth+1, append(anc, id), ancVal, done)
+	}
+	delete(ancVal, id)
+	// a container holding a back edge to an ancestor above it must not be shared elsewhere
+	// (its script would be wrong under another path); share only closed subgraphs
+	closed := true
+	for i := start; i+1 < len(g.script); i++ {
+		if g.script[i] == "N" && g.script[i+2] == "0" {
+			closed = false
+		}
+	}
+	if closed {
+		*done = append(*done, struct {
+			v      []any
+			script []string
+		}{s, append([]string(nil), g.script[start:]...)})
+	}
+	return s
+}
+
+func (c *Ctx) c18Walk() {
+	or := c.NewOracle()
+	if or == nil {
+		c.Note("oracle not available: marshal-walk correspondence skipped")
+		return
+	}
+	n := c.N(150, 5000)
+	var lines, got, scripts []string
+	for t := 0; t < n; t++ {
+		g := &c18Graph{rng: c.Rng, nextID: 2000}
+		var done []struct {
+			v      []any
+			script []string
+		}
+		var wrap []string
+		const wrappers = 1001
+		for i := 0; i < wrappers; i++ {
+			wrap = append(wrap, "N", strconv.Itoa(i+1), "1")
+		}
+		inner := g.gen(0, nil, map[int][]any{}, &done)
+		v := inner
+		for i := 0; i < wrappers; i++ {
+			v = []any{v}
+		}
+		exit, left := "", 0
+		p := guard(func() {
+			e := jsontext.NewEncoder(new(bytes.Buffer))
+			func() {
+				defer func() {
+					if r := recover(); r != nil {
+						if _, ok := r.(pool.UserPanic); !ok {
+							panic(r)
+						}
+						exit = "panic"
+					}
+				}()
+				err := json.MarshalEncode(e, v)
+				switch {
+				case err == nil:
+					exit = "ok"
+				case errorsIs(err, internal.ErrCycle):
+					exit = "cycle"
+				default:
+					exit = "error"
+				}
+			}()
+			left = len(c18Export.Encoder(e).SeenPointers)
+		})
+		if p != nil {
+			c.Panic("MarshalEncode(random graph)", nil, p, map[string]any{"script": trunc(strings.Join(g.script, " "), 600)})
+			continue
+		}
+		if left != 0 {
+			c.Violate("seen-pointers-leaked", "MarshalEncode(random graph)", nil, map[string]any{"left_in_SeenPointers": left, "exit": exit, "script": trunc(strings.Join(g.script, " "), 600)})
+		}
+		c.Case("walk|"+strings.Join(g.script, " "), true)
+		c.Hit("walk-exit:" + exit)
+		lines = append(lines, fmt.Sprintf("iso seen 1000 1 %s %s", strings.Join(wrap, " "), strings.Join(g.script, " ")))
+		got = append(got, fmt.Sprintf("%s %d", exit, left))
+		scripts = append(scripts, strings.Join(g.script, " "))
+	}
+	ans := or.Ask(lines)
+	for i, a := range ans {
+		if a != got[i] {
+			c.Violate("corr-marshal-walk", "marshal (cycle tracker)", nil, map[string]any{"model": a, "code": got[i], "script_below_1001_wrappers": trunc(scripts[i], 800)})
+		}
+	}
 }
 
 func lenClass(n int) string {
